@@ -294,6 +294,14 @@ def op_ro(self, a, targets):
                     t.isMutable()
                     for rid in t.getRankIds():
                         t.getFormat(rid)
+                    # the empty value is handed out as a fresh box each time: nobody can edit the rank's default through it
+                    lr = t.ranks[-1] if t.ranks else None
+                    if lr is not None:
+                        d1, d2 = lr.getDefault(), lr.getDefault()
+                        if isinstance(d1, Payload) and d1 is d2:
+                            self.V("C10", "C10.no-alias", "ro_queries",
+                                   f"two calls of getDefault() on rank {lr.getId()} return the same box object ({d1!r}): a "
+                                   f"result built from it shares it with the operand")
             elif kind == "nonempty":
                 ne = f.nonEmpty()
                 info["n"] = len(ne)
